@@ -20,6 +20,15 @@ Per case this check does
       ns:   Shaper(graph=g, namespaces_to_ignore=N) == Shaper(graph=g minus child-predicate
             triples, instances_file_input=g)  (membership from the full graph); when the
             instantiation property is not ignored also == Shaper(graph=g minus ...) alone;
+            ignore sets also drawn from one STEM family ('#'- and '/'-terminated namespaces
+            hanging from each other: http://ex.org/ , http://ex.org/voc# , http://ex.org/voc/ ,
+            http://ex.org/voc/sub# ...) over graphs using several of them, statements shuffled;
+      multi-file: the document of a cap case split into several N-Triples files whose names
+            are NOT in sorted order (graph_list_of_files_input as given; one zip archive with
+            its members in that order; several archives), every path distinct: "document
+            order" is the order in which the files are given, so the run over the files with
+            instances_cap=k must equal the uncapped run on restrict(concatenation, k) -- the
+            same oracle as for one file -- and the model on the concatenation;
  (iii) EXHAUSTIVE: every ordering (up to renaming) of <= L typing triples over <= 3 classes x
       <= 4 instances x caps 1..max+1 x {all_classes, target_classes = all, target_classes = [C0]}.
 """
@@ -39,6 +48,13 @@ NS_POOL = ["http://ex.org/", "http://ex.org/a/", "http://ex.org/a/b#", "http://e
            "http://other.org/ns#", "http://other.org/", "http://www.w3.org/1999/02/22-rdf-syntax-ns#",
            "http://www.w3.org/1999/02/", "http://ex.org/a/b", ""]
 PRED_NS = ["http://ex.org/", "http://ex.org/a/", "http://ex.org/a/b#", "http://ex.org/ab", "http://other.org/ns#"]
+# one stem, '#'- and '/'-terminated namespaces hanging from each other (a predicate of each agrees with a predicate
+# of its parent up to the last '/', or up to the last '#')
+STEM_NS = ["http://ex.org/", "http://ex.org/voc#", "http://ex.org/voc/", "http://ex.org/voc/sub#",
+           "http://ex.org/voc/sub/", "http://ex.org/deep/", "http://ex.org/deep#"]
+STEM_IGN = STEM_NS + ["http://ex.org/voc", "http://ex.org/voc/sub", "http://ex.org", "http://ex.org/voc#sub/",
+                      "http://www.w3.org/1999/02/22-rdf-syntax-ns#"]
+FILE_NAMES = ["part_2023", "part_2019", "b", "a", "z_last", "data", "data2", "10", "9", "Z", "m", "graph.part", "0_first"]
 
 
 # --------------------------------------------------------------------------
@@ -110,13 +126,13 @@ def occ_direct(ts, kept_doc, tau=T, targets=None):
 # generators
 # --------------------------------------------------------------------------
 
-def gen_big(r):
+def gen_big(r, pred_ns=PRED_NS, nprops=(1, 4)):
     """bigger classes, interleaved typing triples, multi-typed nodes, predicates in nested namespaces"""
     ncls = r.randint(1, 3)
     classes = ["http://ex.org/C%d" % i for i in range(ncls)]
     nodes = [("I", "http://ex.org/n%d" % i) for i in range(r.randint(3, 9))] + \
             [("B", "_:b%d" % i) for i in range(r.choice([0, 0, 1, 2]))]
-    props = [r.choice(PRED_NS) + "p%d" % i for i in range(r.randint(1, 4))]
+    props = [r.choice(pred_ns) + "p%d" % i for i in range(r.randint(*nprops))]
     ts, seen = [], set()
 
     def add(t):
@@ -170,6 +186,40 @@ def cfg_for(idx, targets, cap=-1):
         cfg["all_classes"] = False
         cfg["targets"] = list(targets)
     return cfg
+
+
+def unsorted_names(r, n, ext):
+    """n distinct names, NOT in sorted order when n >= 2"""
+    names = [x + ext for x in r.sample(FILE_NAMES, n)]
+    if n >= 2 and names == sorted(names):
+        names.reverse()
+    return names
+
+
+def file_layout(r, ts):
+    """how the document of a case is delivered: consecutive pieces of it, in this order, under names that do not
+    sort in this order; 'files' = graph_list_of_files_input, 'zip' = one archive (members in this order), 'zips' =
+    several archives (consecutive groups of the pieces)"""
+    n = r.choice([2, 2, 3, 3, 4])
+    cuts = sorted(r.randint(0, len(ts)) for _ in range(n - 1))
+    if r.random() < 0.7:        # no empty piece, as far as the document allows
+        cuts = sorted(set(c for c in cuts if 0 < c < len(ts))) or [len(ts) // 2]
+    n = len(cuts) + 1
+    layout = r.choice(["files", "files", "zip", "zips"])
+    lay = {"layout": layout, "cuts": cuts, "names": unsorted_names(r, n, ".nt")}
+    if layout == "zip":
+        lay["as_list"] = r.random() < 0.5
+    if layout == "zips":
+        na = r.randint(2, n) if n >= 2 else 1
+        gc = sorted(r.sample(range(1, n), na - 1)) if na > 1 else []
+        lay["groups"] = gc
+        lay["archives"] = unsorted_names(r, na, ".zip")
+    return lay
+
+
+def pieces_of(ts, lay):
+    b = [0] + list(lay["cuts"]) + [len(ts)]
+    return [ts[x:y] for x, y in zip(b, b[1:])]
 
 
 def canonical_orderings(maxlen, ncls=3, ninst=4):
@@ -230,6 +280,11 @@ def build_cases(tier, rnd):
             for k in range(1, mx + 2):
                 idx += 1
                 cases.append({"kind": "cap", "src": "random", "mode": mname, "ts": ts, "cfg": cfg_for(idx, targets, k)})
+                if kind >= 2 and k <= mx and r.random() < 0.6:
+                    # the same document in several files given in an order that is not the sorted one
+                    idx += 1
+                    cases.append({"kind": "cap", "src": "multifile", "mode": mname, "ts": ts,
+                                  "cfg": cfg_for(idx, targets, k), "files": file_layout(r, ts)})
         # ignored namespaces
         tsn = gen_big(r) if kind < 2 else ts
         for j in range(3):
@@ -238,6 +293,17 @@ def build_cases(tier, rnd):
             idx += 1
             cases.append({"kind": "ign", "src": "random", "mode": mname, "ts": tsn, "cfg": cfg_for(idx, targets),
                           "ign": nss})
+        # '#'- and '/'-terminated namespaces of one stem, nested, statements in random order
+        tss = gen_big(r, STEM_NS, (3, 6))
+        for j in range(3):
+            nss = r.sample(STEM_IGN, r.choice([1, 1, 2, 2, 3]))
+            mname, targets = r.choice(mode_variants(r, tss))
+            idx += 1
+            c = {"kind": "ign", "src": "stem", "mode": mname, "ts": tss, "cfg": cfg_for(idx, targets), "ign": nss}
+            if j == 2:
+                c["ts"] = list(tss)
+                r.shuffle(c["ts"])           # another order of the predicates over the same graph
+            cases.append(c)
     return cases
 
 
@@ -288,14 +354,45 @@ def _alarm(signum, frame):
     raise _Hang()
 
 
-def real_run(cfg, gdoc, idoc=None, extra=None, omit=()):
-    """Shaper over files: graph_file_input (+ instances_file_input); ('ok', text) | ('err', class)"""
+def write_sources(d, pieces, lay):
+    """writes the pieces of a document as the layout says; returns the Shaper's source arguments"""
+    import zipfile
+    docs = [pipe.nt_doc(p) for p in pieces]
+    if lay["layout"] == "files":
+        paths = []
+        for name, doc in zip(lay["names"], docs):
+            paths.append(os.path.join(d, name))
+            with open(paths[-1], "w") as f:
+                f.write(doc)
+        return {"graph_list_of_files_input": paths}
+    if lay["layout"] == "zip":
+        path = os.path.join(d, "g.zip")
+        with zipfile.ZipFile(path, "w") as z:
+            for name, doc in zip(lay["names"], docs):
+                z.writestr(name, doc)
+        return dict({"graph_list_of_files_input": [path]} if lay["as_list"] else {"graph_file_input": path},
+                    compression_mode="zip")
+    b = [0] + list(lay["groups"]) + [len(docs)]
+    paths = []
+    for an, x, y in zip(lay["archives"], b, b[1:]):
+        paths.append(os.path.join(d, an))
+        with zipfile.ZipFile(paths[-1], "w") as z:
+            for name, doc in list(zip(lay["names"], docs))[x:y]:
+                z.writestr(name, doc)
+    return {"graph_list_of_files_input": paths, "compression_mode": "zip"}
+
+
+def real_run(cfg, gdoc, idoc=None, extra=None, omit=(), sources=None):
+    """Shaper over files: graph_file_input (+ instances_file_input), or the source arguments of write_sources;
+    ('ok', text) | ('err', class)"""
     from shexer.shaper import Shaper
     warnings.filterwarnings("ignore")
     d = _dir()
     gp = os.path.join(d, "g.nt")
-    with open(gp, "w") as f:
-        f.write(gdoc)
+    if sources is None:
+        with open(gp, "w") as f:
+            f.write(gdoc)
+        sources = {"graph_file_input": gp}
     ip = None
     if idoc is not None:
         ip = os.path.join(d, "i.nt")
@@ -310,7 +407,7 @@ def real_run(cfg, gdoc, idoc=None, extra=None, omit=()):
     old = signal.signal(signal.SIGALRM, _alarm)
     signal.setitimer(signal.ITIMER_REAL, 10.0)
     try:
-        sh = Shaper(graph_file_input=gp, instances_file_input=ip, **kw)
+        sh = Shaper(instances_file_input=ip, **dict(kw, **sources))
         return ("ok", sh.shex_graph(string_output=True, acceptance_threshold=(k / m)))
     except _Hang:
         return ("err", "Hang")
@@ -372,7 +469,11 @@ def eval_case(case):
     res = {"oracle": [], "nfig": 0, "runs": 0}
     if case["kind"] == "cap":
         k = cfg["cap"]
-        a = real_run(cfg, doc)
+        if case.get("files"):
+            # the files as given ARE the document: everything below is judged against their concatenation
+            a = real_run(cfg, None, sources=write_sources(_dir(), pieces_of(ts, case["files"]), case["files"]))
+        else:
+            a = real_run(cfg, doc)
         res["impl"] = a
         m, raw = model_run("pipe_shexc", pipe.model_table(ts, cfg), cfg["decimals"])
         res["model"] = m
@@ -522,7 +623,8 @@ def run(tier, seed, replay=None):
 
     spec_fail, corr_fail, known_hits = [], [], {}
     dist = {"cap": 0, "ign": 0, "exhaustive": 0, "impl_err": 0, "cap_bites": 0, "ign_bites": 0, "plain_domain": 0,
-            "deeper_kept": 0, "tau_ignored": 0, "early_stop_mode": 0}
+            "deeper_kept": 0, "tau_ignored": 0, "early_stop_mode": 0, "multifile": 0, "multifile_cap_bites": 0,
+            "multifile_zip": 0, "stem_family": 0, "stem_family_bites": 0}
     nontrivial = set()
     real_runs = 0
     nfig = 0
@@ -532,6 +634,13 @@ def run(tier, seed, replay=None):
         dist["impl_err"] += r["impl"][0] == "err"
         real_runs += r["runs"]
         nfig += r["nfig"]
+        if c.get("files"):
+            dist["multifile"] += 1
+            dist["multifile_cap_bites"] += r["bites"]
+            dist["multifile_zip"] += c["files"]["layout"] != "files"
+        if c["src"] == "stem":
+            dist["stem_family"] += 1
+            dist["stem_family_bites"] += r["bites"]
         if c["kind"] == "cap":
             dist["cap_bites"] += r["bites"]
             dist["plain_domain"] += bool(r["bites"] and r["plain_dom"])
@@ -610,9 +719,20 @@ def run(tier, seed, replay=None):
 
     def payload(i):
         c, r = cases[i], results[i]
-        return {"case": {"kind": c["kind"], "src": c["src"], "mode": c["mode"], "ts": c["ts"], "cfg": c["cfg"],
-                         "ign": c.get("ign")},
-                "nt_document": pipe.nt_doc(c["ts"]), "impl": r["impl"], "model": r["model"], "oracle": r["oracle"]}
+        d = {"case": {"kind": c["kind"], "src": c["src"], "mode": c["mode"], "ts": c["ts"], "cfg": c["cfg"],
+                      "ign": c.get("ign")},
+             "nt_document": pipe.nt_doc(c["ts"]), "impl": r["impl"], "model": r["model"], "oracle": r["oracle"]}
+        if c.get("files"):
+            lay = c["files"]
+            d["case"]["files"] = lay
+            d["files_in_the_order_given"] = [[name, pipe.nt_doc(piece)] for name, piece in
+                                             zip(lay["names"], pieces_of(c["ts"], lay))]
+            d["delivery"] = {"files": "graph_list_of_files_input = the files, in this order",
+                             "zip": "one zip archive, members written in this order (compression_mode='zip')",
+                             "zips": "zip archives %r holding consecutive groups of the files (cut at %r), "
+                                     "graph_list_of_files_input = the archives in this order" % (
+                                         lay.get("archives"), lay.get("groups"))}[lay["layout"]]
+        return d
 
     spec_fail.sort(key=lambda i: (len(cases[i]["ts"]), i))   # smallest failing inputs first
     for i in spec_fail[:5]:
@@ -643,7 +763,11 @@ def run(tier, seed, replay=None):
         "rule": "pipeline cases: pipe.gen_graph (general / schema-consistent) and gen_big graphs x every cap 1..max class "
                 "size+1 x {all_classes, target_classes = all classes, a random subset, a subset plus an absent class} x "
                 "rotating 64 switch sets; ignored-namespace sets drawn from a pool with nested namespaces, namespaces "
-                "without trailing separator, the rdf namespace and the empty string.  Non-trivial = distinct inputs where "
+                "without trailing separator, the rdf namespace and the empty string, and from a stem family of '#'- and "
+                "'/'-terminated namespaces hanging from each other over graphs using 3..6 predicates of that family "
+                "(statements shuffled, the same graph in two statement orders); cap cases of the gen_big graphs also "
+                "delivered as 2..4 N-Triples files / zip members / zip archives whose names do not sort in the order "
+                "given (every path distinct), judged against the concatenation in the order given.  Non-trivial = distinct inputs where "
                 "the option changes what is read (the cap deletes >= 1 typing triple / the filter deletes >= 1 triple).  "
                 "Namespace test: every p of length <= %d over {a,/,#,:} x every namespace of length <= 3 (+ pairs)" % (
                     4 if tier == "quick" else 5),
@@ -665,6 +789,8 @@ def run(tier, seed, replay=None):
         "graphs are duplicate-free and node strings identify nodes (NoDup g, ids_faithful g); typing triples with a "
         "literal object are generated too (out-of-domain stream): both runs of a pair must fail or succeed alike",
         "the restricted document is handed to the instance pass through instances_file_input (NT files under work/c16)",
+        "multi-file cases: every path of the list is distinct (the same path given twice is read twice: C08's subject); "
+        "the model of a multi-file run is the model of the concatenation (C08's partition theorems)",
         "the rest of the pipeline (profiler, shexer, serialiser) is the frozen model validated by the pipeline "
         "correspondence; C16's theorems use it only through run_shexc2's shape (only the tracker reads r_cap / g_inst)"]
     try:
